@@ -78,13 +78,23 @@ def run(ctx):
         'R3 per-assembly loops of the model set-up and of the sweep carry no '
         'decision from one assembly to the next: a local that is re-bound '
         '(not accumulated) inside the loop body is never read in the body '
-        'before it is definitely bound in the same iteration']
+        'before it is definitely bound in the same iteration',
+        'R4 helpers that borrow a template\'s Material (Q_equals_mCdT) hand '
+        'it back at the inlet temperature on every path, so that clones do '
+        'not inherit a state depending on another assembly\'s boundary '
+        'condition (rule shared with C16.R1)']
     ctx.not_decided += ['numerical identity with the stand-alone run']
     res = Resolver(ctx.repo)
     r1(ctx, res)
     r2(ctx)
     r3(ctx)
     ctx.min_instances('C06.R3', 8)
+    # the flow-rate estimate borrows the type template's coolant before the
+    # clones are made: what it leaves behind is inherited by every assembly
+    # of the type (rule shared with C16.R1)
+    from . import c16
+    c16.restore_rule(ctx, 'C06.R4')
+    ctx.min_instances('C06.R4', 1)
     ctx.min_instances('C06.R1', 25)
     ctx.min_instances('C06.R2', 100)
 
